@@ -73,6 +73,20 @@ META = {
         assumptions=["when the manager returns an error no response is sent (the coordinator retries): the property's "
                      "'never reports a success status' is what is required there"],
     ),
+    "C08": dict(
+        rule="branch undo logs of 1-3 statements x before/after images x 0-3 rows x 1-6 columns over the cell table "
+             "(MySQL type -> JDBC code the image builder emits -> Go kind the AT scanner yields), values: NULL, empty "
+             "strings, strings that are valid base64 / look like numbers / JSON, UTF-8, +-2^53+-k, int64 extremes, "
+             "doubles and float32-representable floats, timestamps with ns, binary; serializer json/protobuf x compress "
+             "type None/Gzip/Zip/Bzip2/Lz4/Deflate/Zstd/Sevenz/'gzip'/''/'bogus'; flushed by the real FlushUndoLog "
+             "(capturing conn) and decoded by the rollback path's decoder; one case per column value (decoded value, "
+             "undo-executor equality) + one per log (structure, context). distinct = (serializer, jdbc, value)",
+        trusted=["JSON text layer and compressor libraries by contract (exercised for real, not modelled)",
+                 "harness/c08.go cell table (MySQL type -> scanner kind), read from exec/at/base_executor.go GetScanSlice"],
+        assumptions=["values outside the model's faithful range (integers beyond 2^53) are run on the implementation "
+                     "and judged by the oracle only"],
+        compare=lambda cid, impl, model, tags: tags.get("fragment") == "0" or _strip_sup(impl) == _strip_sup(model),
+    ),
 }
 
 def _member(impl, model):
@@ -87,3 +101,7 @@ def _member(impl, model):
             if x not in s.strip("{}").split(","):
                 return False
     return True
+
+
+def _strip_sup(x):
+    return " ".join(t for t in x.split() if not t.startswith("supported="))
